@@ -299,7 +299,10 @@ class Spec(PropSpec):
     pid = "C11"
     subsys = "SimCore"
     props_file = "C11.v"
-    theorems = ["run_terminates"]
+    theorems = ["run_terminates", "c11_ok_iff", "c11_ok_steps", "c11_no_clients", "c11_err_asap",
+                "c11_timeout_asap", "c11_order_independent", "c11_hosts_dont_block", "c11_no_repoll",
+                "c11_step_consistent", "c11_nonvacuous"]
+    coq_targets = ["C11.vo"]
     consts = []
     anchors = ANCHORS
     harness_bins = ["simcore"]
